@@ -69,9 +69,42 @@ static std::pair<long, int> run_history(const uint8_t* data, size_t size, bool c
     PRule o; o.kind = PRule::OWN; o.own = "com.vp.setup"; o.own_prefix = true; pc.scaffold.push_back(o);
     for (auto& r : pc.scaffold) pc.scaffold_mandatory_xml += "  " + r.xml() + "\n"; }
   BusLimits lim;
-  h.start(make_config("", pc.xml(), lim));
+  // Render the policy: every context may be split into two <policy> elements, elements of different contexts interleave in a
+  // generated order (the order of rules *within* a context is what the documentation makes significant and is preserved), and a
+  // generated run of elements may live in an <include>d file.  The model (PolicyCfg::rules_for) is unaffected by any of this.
+  struct Blk { std::string open; std::vector<PRule> rules; std::string extra; };
+  std::vector<std::vector<Blk>> queues;
+  auto chunks = [&](const std::string& open, const std::vector<PRule>& v, const std::string& first_extra) {
+    std::vector<Blk> q; size_t cut = v.size();
+    if (!v.empty() && rare(f, 2)) cut = pick(f, v.size() + 1);
+    Blk a; a.open = open; a.rules.assign(v.begin(), v.begin() + cut); a.extra = first_extra; q.push_back(a);
+    if (cut < v.size()) { Blk b; b.open = open; b.rules.assign(v.begin() + cut, v.end()); q.push_back(b); }
+    queues.push_back(q);
+  };
+  chunks("<policy context=\"default\">", pc.deflt, "  <allow user=\"*\"/>\n");
+  for (auto& g : pc.groups) chunks("<policy group=\"" + g.first + "\">", g.second, "");
+  for (auto& u : pc.users) chunks("<policy user=\"" + u.first + "\">", u.second, "");
+  chunks("<policy context=\"mandatory\">", pc.mandatory, "");
+  std::vector<Blk> seq; std::vector<size_t> pos(queues.size(), 0);
+  bool shuffle = rare(f, 2);
+  for (;;) { std::vector<size_t> live; for (size_t i = 0; i < queues.size(); i++) if (pos[i] < queues[i].size()) live.push_back(i); if (live.empty()) break; size_t qi = shuffle ? live[pick(f, live.size())] : live[0]; seq.push_back(queues[qi][pos[qi]++]); }
+  auto render = [&](size_t a, size_t b) { std::string s; for (size_t i = a; i < b; i++) { s += seq[i].open + "\n" + seq[i].extra; for (auto& r : seq[i].rules) s += "  " + r.xml() + "\n"; s += "</policy>\n"; } return s; };
+  std::string inc_path, policy_xml;
+  size_t ia = seq.size(), ib = seq.size();
+  if (rare(f, 2)) { ia = pick(f, seq.size() + 1); ib = ia + pick(f, seq.size() - ia + 1); }
+  if (ib > ia) {
+    char ip[128]; snprintf(ip, sizeof ip, "/tmp/vp-c06-inc-%d.conf", (int)getpid()); inc_path = ip;
+    std::string inc = "<!DOCTYPE busconfig PUBLIC \"-//freedesktop//DTD D-Bus Bus Configuration 1.0//EN\" \"http://www.freedesktop.org/standards/dbus/1.0/busconfig.dtd\">\n<busconfig>\n" + render(ia, ib) + "</busconfig>\n";
+    FILE* fp = fopen(ip, "w"); if (fp) { fwrite(inc.data(), 1, inc.size(), fp); fclose(fp); }
+    policy_xml = render(0, ia) + "<include>" + inc_path + "</include>\n" + render(ib, seq.size());
+    h.log.push_back("included file " + inc_path + ":\n" + render(ia, ib));
+  } else policy_xml = render(0, seq.size());
+  policy_xml += "<policy context=\"mandatory\">\n" + pc.scaffold_mandatory_xml + "</policy>\n";
+  h.start(make_config("", policy_xml, lim));
+  if (!inc_path.empty()) unlink(inc_path.c_str());
   h.model.replies_must_be_requested = false;
-  h.log.push_back("policy:\n" + pc.xml());
+  h.log.push_back("policy:\n" + policy_xml);
+  if (count) { stats_class(ib > ia ? "layout:with-include" : "layout:single-file"); if (shuffle) stats_class("layout:interleaved-contexts"); }
   // cast: A sender, B owner of two names, C queued on one of them and eavesdropping
   static const uid_t uid_of[2] = {(uid_t)-1, 1};
   static const char* const user_of[2] = {"root", "daemon"};
